@@ -37,7 +37,7 @@ def unistore_ok(sh, mode, pess):
     reports a committed lock-only secondary as missing; async-commit shapes with lock-only mutations are therefore left to
     the 2PC/1PC modes (environment limitation, see docs/TXN.md)"""
     muts = txnlab.expected_mutations({'ops': sh['ops'], 'pessimistic': pess})
-    return not (mode == 'async' and 'lock' in muts.values())
+    return not (mode in ('async', 'async1pc') and 'lock' in muts.values())
 
 
 def main(tier, replay):
@@ -74,23 +74,29 @@ def main(tier, replay):
             v.violation({"kind": "property-oracle", "scenario": sc, "violated": bad})
         return v.finish()
     shapes = txnlab.base_shapes()
-    base = [(sh, mode, pess) for sh in shapes for mode in ("2pc", "async", "1pc") for pess in (False, True) if unistore_ok(sh, mode, pess)]
+    base = [(sh, mode, pess) for sh in shapes for mode in ("2pc", "async", "1pc", "async1pc") for pess in (False, True) if unistore_ok(sh, mode, pess)]
     rng.shuffle(base)
     if tier == "quick":
         base = base[:45]
-    probes = [txnlab.mk_scenario(f"p{i}", sh, mode, pess) for i, (sh, mode, pess) in enumerate(base)]
+    base = txnlab.with_fallbacks(base)
+    cov["fallback_shapes"] = sum(1 for b in base if b[-1])
+    probes = [txnlab.mk_scenario(f"p{i}", sh, mode, pess, **txnlab.fbkw(fb)) for i, (sh, mode, pess, fb) in enumerate(base)]
     pres = txnlab.run_scenarios(exe, probes)
     cases = []
-    for (sh, mode, pess), pr in zip(base, pres):
+    for (sh, mode, pess, fb), pr in zip(base, pres):
         n = min(pr.get("counted", 0), 12)
-        tag = f"{sh['name']}-{mode}-{'p' if pess else 'o'}"
+        tag = f"{sh['name']}-{mode}{'fb' if fb else ''}-{'p' if pess else 'o'}"
+        _mk = txnlab.mk_scenario
+        def mk(*a, **kw):
+            kw.update(txnlab.fbkw(fb))
+            return _mk(*a, **kw)
         for i in range(n):
             for fk in FAULTS:
-                cases.append(txnlab.mk_scenario(f"{tag}-{i}-{fk}", sh, mode, pess, faults=[{"at": i, "kind": fk}]))
+                cases.append(mk(f"{tag}-{i}-{fk}", sh, mode, pess, faults=[{"at": i, "kind": fk}]))
             for hk in HOOKS:
-                cases.append(txnlab.mk_scenario(f"{tag}-{i}-{hk}", sh, mode, pess, extras=[{"at": i, "what": hk, "k": ""}]))
+                cases.append(mk(f"{tag}-{i}-{hk}", sh, mode, pess, extras=[{"at": i, "what": hk, "k": ""}]))
             for bk in ("req", "resp"):
-                cases.append(txnlab.mk_scenario(f"{tag}-{i}-black{bk}", sh, mode, pess, black_from=i, black_kind=bk))
+                cases.append(mk(f"{tag}-{i}-black{bk}", sh, mode, pess, black_from=i, black_kind=bk))
             # double faults: a second fault at a later index
             for _ in range(2):
                 j = rng.randrange(i, n + 2)
@@ -101,7 +107,7 @@ def main(tier, replay):
                     ex = [{"at": j, "what": f2, "k": ""}]
                 elif j != i:
                     fl.append({"at": j, "kind": f2})
-                cases.append(txnlab.mk_scenario(f"{tag}-{i}-{f1}+{j}-{f2}", sh, mode, pess, faults=fl, extras=ex))
+                cases.append(mk(f"{tag}-{i}-{f1}+{j}-{f2}", sh, mode, pess, faults=fl, extras=ex))
     if tier == "quick" and len(cases) > 1400:
         rng.shuffle(cases)
         cases = cases[:1400]
